@@ -104,6 +104,12 @@ def run(chk: core.Check) -> None:
             if got is None or ident(got) != want:
                 chk.fail({**case, "lookup": want, "found": None if got is None else ident(got)}, f"{entry}: the object is not found again under the name it was given / another one is")
                 return
+            # the same lookup on the model (OdfModel/XPathLit.selectByName: the predicate built with xpath_literal, evaluated on the
+            # identifiers the document holds, first match): which of the two objects, if any
+            if isinstance(w1, str) and isinstance(w2, str) and isinstance(want, str) and not ({w1, w2} & {"true", "false"}):
+                gi = ident(got)
+                reqs.append((f"xp select {enc_str(want)} {enc_str(w1)} {enc_str(w2)}", "ok " + ("0" if gi == w1 else "1" if gi == w2 else "OTHER"), {**case, "lookup": want, "op": "select"}))
+                chk.count("lookup vs model", entry)
 
     for n in names:
         n1, n2 = two(n)
